@@ -205,7 +205,7 @@ func runCase(work string, c *ld.Case) ld.Result {
 	}
 	if c.Opts.NoResolvePaths {
 		if err := os.Chdir(filepath.Join(dir, c.WorkingDir)); err == nil {
-			defer os.Chdir(work) //nolint:errcheck
+			defer os.Chdir(filepath.Dir(work)) //nolint:errcheck // the shard directory outlives the scratch directory
 		}
 	}
 	return ld.Load(dir, c)
@@ -271,6 +271,19 @@ func (k *checker) model(id string, m *gen.Model, origin string, opts ld.Opts, r 
 	s.Cover("origin", origin)
 	s.Cover("options", opts.String())
 	declared, used := defaultNetworkUse(m.Doc)
+	if origin == "base" {
+		// the same-file bases are services of the project too: the innermost base of a chain in
+		// which nobody carries network_mode or networks uses the default network by itself
+		for _, f := range layout.Apply(m.Doc) {
+			for _, d := range f.Docs {
+				for _, n := range sortedKeys(services(d)) {
+					if sv := svc(d, n); sv["extends"] == nil && usesDefaultNetwork(sv) {
+						used = true
+					}
+				}
+			}
+		}
+	}
 	if v := defaultNetworkVerdict(declared, used, pI); v != "" {
 		s.Violation(map[string]string{"kind": "default-network", "sub": v, "origin": origin},
 			fmt.Sprintf("the `default` network is %s (origin %s)", strings.ReplaceAll(v, "-", " "), origin),
@@ -311,7 +324,7 @@ func (k *checker) model(id string, m *gen.Model, origin string, opts ld.Opts, r 
 			attrs["kind"] = "explicit-rejected"
 			what = fmt.Sprintf("the model loads with the default at %s left implicit but not with it spelled out (rule %s, origin %s): %s", where, rule, origin, d)
 		} else {
-			attrs["field"] = diff.PathOf(d)
+			attrs["field"] = strings.TrimPrefix(diff.PathOf(d), "Disabled")
 			what = fmt.Sprintf("spelling out the default at %s changes the project (rule %s, origin %s): %s", where, rule, origin, d)
 		}
 		s.Violation(attrs, what, map[string]any{"case.json": replayCase{Kind: attrs["kind"], Implicit: ic, Variant: ec, Rule: rule, Origin: origin}})
@@ -441,7 +454,7 @@ func run(s *core.Shard) {
 	if os.Getenv("VERIF_DEBUG") != "" {
 		scale = 10
 	}
-	n := s.Pick(1200, 16000) / scale
+	n := s.Pick(1200, 12000) / scale
 	for j := 0; j < n; j++ {
 		if !s.Mine(j) {
 			continue
